@@ -1564,6 +1564,9 @@ func (r *FnRun) assumeFieldTypes(st *State, ref string, t types.Type, depth int)
 			}
 		default:
 			st.assume(sEq(sx("elty", fr), "0")) // not an array: never the base of a slice
+			for j := 0; j < 4; j++ {
+				st.assume(sEq(sx("elty", sx("fld", fr, fmt.Sprint(j))), "0"))
+			}
 		}
 	}
 }
